@@ -267,7 +267,7 @@ def tsc_cases(draw, kind="tsc", nprog=NPROG):
     """kind 'tsc': constraint machinery driven step by step; kind 'e2e': the same problem handed to at.optimize() on a small project"""
     e2e = kind == "e2e"
     scale = draw(scale_s)
-    spend = [scale * u for u in draw(st.lists(unit, min_size=nprog, max_size=nprog))]
+    spend = [scale * (u if (u > 0 or not e2e) else 0.25) for u in draw(st.lists(unit, min_size=nprog, max_size=nprog))]  # e2e: zero totals only through the all-zero case
     if draw(st.integers(0, 15)) == 0:
         spend = [0.0] * nprog
     src = draw(st.sampled_from(["progset", "dict", "dict", "none"]))
@@ -1075,6 +1075,8 @@ def _check_e2e(case):
     opt = at.Optimization("c14", adjustments=adjustments, measurables=meas, constraints=constraint, maxiters=case["maxiters"])
     inst = _instructions(case, pg, names)
     given = _snapshot(inst)
+    if not m["adjustables"]:
+        return {"nontrivial": False, "labels": labels + ["nothing-adjustable"]}  # ASD refuses an empty vector: nothing to optimize
 
     exp_invalid = any((a["v0"] < a["lo"] or a["v0"] > a["hi"]) for a in m["adjustables"])
     exp_unres, borderline, anyzero = False, False, False
@@ -1089,7 +1091,7 @@ def _check_e2e(case):
     try:
         out = at.optimize(P, opt, parset=P.parsets[0], progset=pg, instructions=inst, optim_args={"randseed": case["randseed"]})
     except (InvalidInitialConditions, UnresolvableConstraint, FailedConstraint, AssertionError) as e:
-        labels.append("rejected:" + type(e).__name__)
+        labels.append("rejected:" + type(e).__name__ + ("(total=0)" if anyzero else "") + ("(nan-bound)" if m["nanbound"] else ""))
         if isinstance(e, (InvalidInitialConditions, UnresolvableConstraint)) and not (exp_invalid or exp_unres or borderline or m["nanbound"] or anyzero):
             labels.append("rejected-though-feasible")  # e.g. a non-finite objective at the initial point
         return {"nontrivial": exp_invalid or exp_unres, "labels": labels}
@@ -1101,13 +1103,12 @@ def _check_e2e(case):
         raise Violation(ID, "e2e/impossible-constraint-not-reported", "InvalidInitialConditions expected=%s UnresolvableConstraint expected=%s but at.optimize returned; totals %r; %s" % (exp_invalid, exp_unres, m["totals"], desc))
     labels.append("returned")
     changed = False
-    adjusted = set()
+    adjusted = set(names[p] for a in case["adj"] for p in (a["progs"] if "progs" in a else [a["prog"]]))
     for t, total in m["totals"].items():
         tolb = 1e-9 * max(1.0, abs(total))
         tot_now = 0.0
         for e in m["entries"][t]:
             vals = [out.alloc[names[p]].get(t) if names[p] in out.alloc else None for p in e["progs"]]
-            adjusted.update(names[p] for p in e["progs"])
             if any(v is None or not math.isfinite(v) for v in vals):
                 raise Violation(ID, "e2e/garbage-allocation", "year %r %s: returned allocation %r; %s" % (t, e["key"], vals, desc))
             v = math.fsum(vals)
